@@ -301,7 +301,13 @@ func transformReplay(args []string) {
 			var svcs []interface{}
 
 			for i := 1; i <= c.Services; i++ {
-				svcs = append(svcs, map[string]interface{}{"id": fmt.Sprintf("s%d", i), "type": fmt.Sprintf("T%d", i),
+				// (the first service has the id of the first key: ids are unique among keys and among services, not across)
+				sid := fmt.Sprintf("s%d", i)
+				if i == 1 {
+					sid = "k1"
+				}
+
+				svcs = append(svcs, map[string]interface{}{"id": sid, "type": fmt.Sprintf("T%d", i),
 					"serviceEndpoint": []interface{}{"https://a.example/x", map[string]interface{}{"o": i}}, "priority": float64(i), "routingKeys": []interface{}{"r"},
 					// members whose values are null / empty / zero are members too
 					"description": nil, "accept": []interface{}{}, "weight": 0.0, "label": ""})
@@ -461,6 +467,9 @@ func transformReplay(args []string) {
 			for i := range svcs {
 				want := generic(svcs[i]).(map[string]interface{})
 				want["id"] = qid(tQID{Relative: c.Base, Prefix: "s", ID: i + 1})
+				if i == 0 {
+					want["id"] = qid(tQID{Relative: c.Base, Prefix: "k", ID: 1}) // (the id it shares with the first key)
+				}
 
 				if !reflect.DeepEqual(svcByID[want["id"].(string)], want) {
 					fail("service", fmt.Sprintf("service %d", i), want, out["service"])
